@@ -54,6 +54,11 @@ def gen_copy_case(tier, seed, k):
     if presolved:
         L.append(rnd.choice(SOLVES) % "p0")
     L += ["copy p0 p1 thecopy", "dumpx p0", "dumpx p1", "storecheck p1"]
+    objrow = not files and rnd.random() < 0.25 and "obj" not in [x.name for x in m.rows + m.cols]
+    if objrow:
+        # the name "obj" is free in a problem built through the API: it must be just as free in its copy
+        L += ["new_row p0 1 L obj", "new_row p1 1 L obj"]
+        m.apply(("new_row", F(1), "L", "obj"))
     twins = []
     if not presolved and m.nrows and rnd.random() < 0.8:
         # original and copy, both unsolved, are given the same solve: same status and value expected
@@ -178,10 +183,6 @@ def judge(case, res):
                     last[slot] = ev
                     if slot == "p1" and "p0" in last and ln > 0 and case.script[ln - 1].startswith("dumpx p0"):
                         a, b = strip(last["p0"]), strip(ev)
-                        if a.get("objname") is None:
-                            # a problem without objective name: the copy may give it a default one
-                            a.pop("objname", None)
-                            b.pop("objname", None)
                         diff = sorted(k for k in set(a) | set(b) if a.get(k) != b.get(k))
                         if diff:
                             V.append(("C16|copy|differs:%s" % ",".join(diff[:3]), "copy differs from original in %s: %s vs %s" % (diff[:5], [a.get(k) for k in diff[:3]], [b.get(k) for k in diff[:3]])))
